@@ -28,6 +28,9 @@ def run(ctx):
     t2 = execute(ctx, "udp_exec", rb, "random")
     acc2, f2 = validate_and_report(ctx, "UdpRef_Trace", "UdpRef_Trace.cfg", t2, "random",
                                    U.classify, rb)
+    # 3b. strict implementation-shaped pass on the accepted edge-cover trace (model drift only)
+    if not f1 and not ctx.violations:
+        strict_pass(ctx, "SwarmStrict_Udp.cfg", t1, "udp_edgecover", max_events=8000 if ctx.quick() else None)
     # 4. binding self-test
     if not f1:
         binding_selftest(ctx, "UdpRef_Trace", "UdpRef_Trace.cfg", t1, U.mutate_counts)
